@@ -19,6 +19,22 @@ for p in sorted(root.glob("*.py")):
                 if isinstance(x, ast.FunctionDef):
                     out.append(f"{m}.{st.name}.{x.name}")
                     out += [f"{m}.{st.name}.{x.name}.<locals>.{y.name}" for y in x.body if isinstance(y, ast.FunctionDef)]
+# names bound at module / class level (constants, tables): a literal constant that is NOT in this vocabulary is a new
+# constant and is propagated to its uses before analysis
+consts = []
+for p in sorted(root.glob("*.py")):
+    tree = ast.parse(p.read_text())
+    m = p.stem
+    for st in tree.body:
+        if isinstance(st, (ast.Assign, ast.AnnAssign)):
+            for t in (st.targets if isinstance(st, ast.Assign) else [st.target]):
+                consts += [f"const:{m}.{n.id}" for n in ast.walk(t) if isinstance(n, ast.Name)]
+        elif isinstance(st, ast.ClassDef):
+            for x in st.body:
+                if isinstance(x, (ast.Assign, ast.AnnAssign)):
+                    for t in (x.targets if isinstance(x, ast.Assign) else [x.target]):
+                        consts += [f"const:{m}.{st.name}.{n.id}" for n in ast.walk(t) if isinstance(n, ast.Name)]
+out += consts
 dst = Path(__file__).resolve().parents[1] / "hvsa" / "baseline_functions.txt"
 dst.write_text("# functions of the pinned hvsrpy tree (names only); see hvsa/normalize.py\n" + "\n".join(sorted(set(out))) + "\n")
 print(len(out), "functions ->", dst)
